@@ -505,7 +505,14 @@ class Py2Cpp(ITranspiler):
 			return self.render(node, f'flow/{node.classification}/range', vars={'symbol': symbols[0], 'begin': begin, 'size': size, 'step': 1, 'statements': statements})
 		else:
 			begin, size, step = BlockParser.break_separator(join_args, ',')
-			return self.render(node, f'flow/{node.classification}/range', vars={'symbol': symbols[0], 'begin': begin, 'size': size, 'step': step, 'statements': statements})
+			# 負のステップ(降順)はPythonでは`symbol > size`の間ループするため、ステップの符号に応じて継続条件を切り替える
+			condition = ''
+			if re.fullmatch(r'-\s*\d+', step):
+				condition = f'{symbols[0]} > {size}'
+			elif not re.fullmatch(r'\+?\s*\d+', step):
+				condition = f'({step}) > 0 ? {symbols[0]} < {size} : {symbols[0]} > {size}'
+
+			return self.render(node, f'flow/{node.classification}/range', vars={'symbol': symbols[0], 'begin': begin, 'size': size, 'step': step, 'condition': condition, 'statements': statements})
 
 	def proc_for_enumerate(self, node: defs.For, symbols: list[str], for_in: str, statements: list[str]) -> str:
 		# 期待値: 'enumerate(arguments...)'
